@@ -2,7 +2,7 @@
 import looplib as L
 from vlib import Failure, finish, hexs
 
-COQ_FILES = L.LOOP_COQ_FILES + L.REFINE_COQ_FILES + L.CANCEL_COQ_FILES
+COQ_FILES = L.LOOP_COQ_FILES + L.REFINE_COQ_FILES + L.CANCEL_COQ_FILES + L.MUTE_COQ_FILES
 
 
 def corpus():
@@ -56,7 +56,7 @@ def gen(ctx):
         items.append((L.Sched(labels=labels + L.flush(nreq), note="fragment session"), info))
     # ... and sessions in the domain of the erasure theorem (c01_exec_cancel_session): the same, with callers giving up
     for _ in range(40 if ctx.tier == "quick" else 800):
-        labels, info, nreq = L.gen_fragment_session(rng, rng.choice([8, 20, 50, 90]), tricky=False, cancels=True)
+        labels, info, nreq = L.gen_fragment_session(rng, rng.choice([8, 20, 50, 90]), tricky=False, cancels=True, drops=rng.random() < 0.3)
         info["fault_free"] = True
         items.append((L.Sched(labels=labels + L.flush(nreq), note="fragment session with cancellations"), info))
     return items
